@@ -90,6 +90,8 @@ class Member:
                 trees.append([Leaf(raw=Leaf(t, suf).text("long"))])
         # values / extensions with non-ASCII letters: which characters a value may hold depends on the schema version
         if st.text_tag is not None:
+            trees.append([Leaf(st.text_tag, "/a:b/c")])       # a colon and a later slash inside the value
+            trees.append([Leaf(st.plain3[0]), [Leaf(st.text_tag, "/run:1/2")]])
             trees.append([Leaf(st.text_tag, "/Caf\u00e9")])
             trees.append([Leaf(st.plain3[0]), [Leaf(st.text_tag, "/\u03b1-wave")]])
         if st.ext_tag is not None:
@@ -114,7 +116,8 @@ def build(ctx_thorough):
     members = {}
     configs = []
     for a, b in pairings:
-        for pa, pb in (("", "sc:"), ("tl:", "sc:"), ("sc:", ""), ("tl:", "")):
+        # (prefixes are letters of either case)
+        for pa, pb in (("", "sc:"), ("tl:", "sc:"), ("sc:", ""), ("tl:", "")) + ((("Tl:", "SC:"),) if (a, b) == pairings[0] else ()):
             for v in (a, b):
                 if v not in members:
                     members[v] = Member(v)
@@ -193,6 +196,8 @@ def worker(rec, shard, nshards, members, configs, alone, thorough, seed):
                 if bad in [p for p, _ in parts]:
                     continue
                 text = with_prefix(tree, bad)
+                if not text.isascii():
+                    continue        # a character error of the string-level phase comes first there
                 rec.n("evaluations")
                 try:
                     c = codes(group, text)
